@@ -366,7 +366,7 @@ def geometries(tier):
             asym.append(Geom(W, wrap, DEFAULT_SYM, 37, False, "spaces", mll="asym-gutter"))
             asym.append(Geom(W, wrap, DEFAULT_SYM, 37, False, "spaces", mll="asym-gutter-left"))
     # with markers kept one more column is needed
-    return [g for g in gs if (g.W // 2 - 6 - (1 if g.markers else 0)) >= 3] + asym
+    return asym + [g for g in gs if (g.W // 2 - 6 - (1 if g.markers else 0)) >= 3]
 
 
 def run_plain_gutter(task):
